@@ -157,7 +157,7 @@ func (r *i36Run) fetchUnit(ui int, b *i36Base, newSrv *i36Srv, prior i36Prior, s
 					c.Eval()
 					switch pairing {
 					case i36GG, i36GX:
-						err, h := r.goFetch(cd, newSrv.dir, proto, spec.Spec, i36TagModes[ti], depth, prune, pairing == i36GX)
+						err, h := r.goFetch(cd, newSrv.dir, proto, spec.Spec, i36TagModes[ti], depth, prune, pairing == i36GX, pairing == i36GG && i36OverHTTP(b))
 						e.hung = h
 						if err != nil {
 							e.failMsg = err.Error()
@@ -207,6 +207,9 @@ func (r *i36Run) fetchUnit(ui int, b *i36Base, newSrv *i36Srv, prior i36Prior, s
 							twin = e
 						}
 						cls := fmt.Sprintf("%s v%d fetch prior=%s spec=%s tags=%s depth=%d prune=%v", pairing, proto, prior.Kind, spec.Name, tname, depth, prune)
+						if pairing == i36GG && i36OverHTTP(b) {
+							cls = "http " + cls
+						}
 						base := map[string]any{"request": req, "pairing": pairing, "protocol": proto, "replay": fmt.Sprintf("see notes/C36.md (vcheck __play fetch <client> '%s' %s %d %v %d %s)", spec.Spec, tname, depth, prune, proto, map[bool]string{true: "exec", false: "file"}[pairing == i36GX])}
 						if e.hung {
 							r.mu.Lock()
